@@ -154,6 +154,18 @@ register(
     "DESIGN.md §3 C11",
 )
 
+register(
+    "C12",
+    "bounded-exhaustive grid over every decade of the double range x a mantissa alphabet built from the rounding boundaries of every precision x sign x formatter, against a brute-force best-representation oracle; all short type mixes and periodic long mixes of card fields x writers x fixed/comma form; reader coroutine over all short multi-card files",
+    "Every (decade, mantissa, sign, formatter) point is formatted, checked for exact width, parsed back with the "
+    "Nastran number reader (must be a float) and held to half a unit of the last digit the width allows; every card "
+    "type mix for 1-5 fields and every phase of periodic mixes for 6-60 fields is written in small/large/double form "
+    "and as a comma card and read back field for field, also inside multi-card files in every order.",
+    "Trusted: the best-representation search in vf/checks/c12.py (legal forms: fixed with decimal point, exponent "
+    "without letter, D form for double style); mantissa alphabet + salt pool.",
+    "DESIGN.md §3 C12",
+)
+
 
 def build():
     checks = []
